@@ -270,11 +270,11 @@ from specs.cl_harness import run_harness
 from specs.fifo_spec import PyFifo
 from pymtl3 import Bits16
 import pymtl3.stdlib.queues.cl_queues as CL
-kind, n = %(kind)r, %(n)d
+kind, n, order = %(kind)r, %(n)d, %(order)r
 eo, do, vals = %(eo)r, %(do)r, %(vals)r
 cls = {'normal': CL.NormalQueueCL, 'pipe': CL.PipeQueueCL, 'bypass': CL.BypassQueueCL}[kind]
 try:
-  log = run_harness(cls, n, eo, do, [Bits16(v) for v in vals])
+  log = run_harness(cls, n, eo, do, [Bits16(v) for v in vals], order)
 except Exception as e:
   reproduced(f"{kind} CL queue n={n} offers eo={eo} do={do}: simulation raised {type(e).__name__}: {e}")
 spec = PyFifo(kind, n)
@@ -301,7 +301,7 @@ def item_cl(it):
   from specs.fifo_spec import PyFifo
   import pymtl3.stdlib.queues.cl_queues as CL
   kind, n, k = it['kind'], it['n'], it['k']
-  name = f"cl/{kind}/n={n}/k={k}"
+  name = f"cl/{kind}/n={n}/k={k}" + (f"/{it['order']}" if it.get('order') else '')
   sp.setup()
   cls = {'normal': CL.NormalQueueCL, 'pipe': CL.PipeQueueCL, 'bypass': CL.BypassQueueCL}[kind]
   eos = [core.fresh(f'eo{t}', 1) for t in range(k)]
@@ -314,12 +314,12 @@ def item_cl(it):
     m = sv.model()
     g = lambda x: m.eval(x, model_completion=True).as_long()
     eo = [g(v) for _, v in eos]; do = [g(v) for _, v in dos]; vals = [g(v) for _, v in msgs]
-    rep = REPLAY_CL % dict(kind=kind, n=n, eo=eo, do=do, vals=vals)
+    rep = REPLAY_CL % dict(kind=kind, n=n, eo=eo, do=do, vals=vals, order=it.get('order'))
     def viol(what, model=None):
       r2 = rep
       if model is not None:
         gg = lambda x: model.eval(x, model_completion=True).as_long()
-        r2 = REPLAY_CL % dict(kind=kind, n=n, eo=[gg(v) for _, v in eos], do=[gg(v) for _, v in dos], vals=[gg(v) for _, v in msgs])
+        r2 = REPLAY_CL % dict(kind=kind, n=n, eo=[gg(v) for _, v in eos], do=[gg(v) for _, v in dos], vals=[gg(v) for _, v in msgs], order=it.get('order'))
       rec['violations'].append(dict(key=f"cl_queues.{cls.__name__}", what=f"{name}: {what}", replay=r2))
     rec['obligations'] += 1
     if exc is not None:
@@ -342,7 +342,7 @@ def item_cl(it):
     return rec
 
   fx = ForkExplorer(leaf=leaf, max_paths=40000)
-  recs = fx.run(lambda: run_harness(cls, n, [e for e, _ in eos], [d for d, _ in dos], [b for b, _ in msgs]))
+  recs = fx.run(lambda: run_harness(cls, n, [e for e, _ in eos], [d for d, _ in dos], [b for b, _ in msgs], it.get('order')))
   res = Result(name)
   for r in recs:
     if 'error' in r: res['inconclusive'].append(r['error']); continue
@@ -382,7 +382,8 @@ def main():
         items.append(dict(kind_='step', fam=fam, kind=kind, n=n, mt='8', k=1))
   for kind in ('normal', 'pipe', 'bypass'):
     for n in ([1, 2] if tier == 'quick' else [1, 2, 3]):
-      items.append(dict(kind_='cl', kind=kind, n=n, mt='16', k=2 * n + 1 if n < 3 else 6))
+      for order in ((None,) if kind != 'normal' else ('enq_first', 'deq_first')):      # NormalQueueCL declares no order between enq and deq: both caller orders
+        items.append(dict(kind_='cl', kind=kind, n=n, mt='16', k=2 * n + 1 if n < 3 else 6, order=order))
   items.sort(key=lambda it: -it['k'] * it['n'] * (50 if it['kind_'] == 'cl' else 1))
   for it, r in pmap(dispatch, items, item_timeout=900 if tier == 'quick' else 3000):
     chk.absorb(it, r)
